@@ -602,7 +602,7 @@ Qed.
 Lemma step_inv st s : Inv st -> Inv (step muxes clone st s).
 Proof.
   destruct s; [apply step_new_inv | apply step_mut_inv | apply step_muxbegin_inv | apply step_muxnext_inv
-               | apply step_async_inv | apply step_run_inv].
+               | apply step_async_inv | apply step_run_inv | exact (fun I => I)].
 Qed.
 
 Lemma exec_inv sched st : Inv st -> Inv (exec muxes clone sched st).
@@ -682,6 +682,7 @@ Proof.
     + rewrite Ek in H. injection H as <-. exists (mkAgent q None). split; [|reflexivity].
       apply nth_error_set_nth_eq. apply nth_error_Some. congruence.
     + exists ag. split; [|reflexivity]. rewrite nth_error_set_nth_neq by exact Hne. exact H.
+  - (* SReturn *) exact Hv.
 Qed.
 
 (* non-interference, one step: somebody else's step never changes what a can observe *)
@@ -764,6 +765,7 @@ Proof.
   - destruct (nth_error (st_agents st) k0) as [[q [[d' hid']|]]|] eqn:Ek; try (intros H; now apply list_neq_cons in H).
     cbn [st_log]. intros H. injection H as <- <- <- <-. unfold agent_content. cbn [st_agents st_h].
     rewrite nth_error_set_nth_eq; [reflexivity|]. apply nth_error_Some. congruence.
+  - intros H. now apply list_neq_cons in H.
 Qed.
 
 (* the content written into a dispatch event is the content of the dispatcher's message *)
@@ -785,6 +787,7 @@ Proof.
     injection H as <- <- <-. apply acting_spec in Act as (Ha & Hp & _). unfold agent_content. now rewrite Ha, Hp.
   - destruct (nth_error (st_agents st) k) as [[q [[d' hid']|]]|] eqn:Ek; try (intros H; now apply list_neq_cons in H).
     cbn. discriminate.
+  - intros H. now apply list_neq_cons in H.
 Qed.
 
 (* ServeMux.Serve decides every iteration of its loop on the dispatched topic *)
